@@ -9,7 +9,11 @@ package corr
 //	         observable per build: `report ts=<ntp32> n=<blocks> len=<len(Marshal())>` and, sorted by SSRC,
 //	         `b ssrc=A begin=B cnt=N m=<1.ecn.ato | 0, ...>`
 //	ccfbint  rfc8888.SenderInterceptor inside a testing/synctest bubble (real ticker, real time.Now)
-//	         ops: cfg interval=<ms> | writer | bind ssrc=A | rtp ssrc=A seq=Q | adv ms=D | close
+//	         ops: cfg interval=<ms> [skew=<ms>] | writer | bind ssrc=A | rtp ssrc=A seq=Q | adv ms=D | close
+//	         skew: the clock configured with rfc8888.SenderNow runs `skew` ms ahead of (negative: behind) the
+//	         bubble's clock, which drives the default ticker (and is the value its channel delivers): arrival
+//	         times and the report time must both be the configured clock's; the model's clock starts at
+//	         2000-01-01 + skew (kept inside NTP era 0).
 //	         observables: `read ok|blocked` per rtp, the reports reaching the RTCP writer per adv,
 //	         `closed released=<n>` (Reads that were blocked in the hand-off and returned on Close).
 
@@ -617,6 +621,13 @@ func c08GenInt(r *Rng, tier string, idx int) Case {
 		interval = r.Pick(1000, 2000, 4000)
 	}
 	ops := []string{fmt.Sprintf("cfg interval=%d", interval)}
+	// a third of the cases: a configured clock (SenderNow) that is not the ticker's clock
+	skew := 0
+	if r.Chance(1, 3) {
+		skew = r.Pick(1, -1, 999, -1000, 3600000, -3600000, 86400000, -86400000, 315576000000, -315576000000,
+			1104537600000, -2900000000000)
+		ops[0] += fmt.Sprintf(" skew=%d", skew)
+	}
 	k := 1
 	if cl == "multi" || r.Chance(1, 4) {
 		k = r.Range(2, 5)
@@ -666,6 +677,9 @@ func c08GenInt(r *Rng, tier string, idx int) Case {
 		// keep flowing, then resumes with a duplicate of an old number, a gap, or the next number
 		interval = r.Pick(100, 50, 20)
 		ops[0] = fmt.Sprintf("cfg interval=%d", interval)
+		if skew != 0 {
+			ops[0] += fmt.Sprintf(" skew=%d", skew)
+		}
 		for j := r.Range(2, 8); j > 0; j-- {
 			i := r.Intn(k)
 			rtp(i)
@@ -804,8 +818,15 @@ func c08RunInt(t *testing.T, ops []string, o *Out) {
 		}
 		for _, op := range ops {
 			var a, b int
-			if scan(op, "cfg interval=%d", &a) && icpt == nil && a >= 1 && a <= 100000 {
-				f, err := rfc8888.NewSenderInterceptor(rfc8888.SendInterval(time.Duration(a) * time.Millisecond))
+			withSkew := len(strings.Fields(op)) == 3 && scan(op, "cfg interval=%d skew=%d", &a, &b) &&
+				b >= -3000000000000 && b <= 1130000000000
+			if (withSkew || len(strings.Fields(op)) == 2 && scan(op, "cfg interval=%d", &a)) && icpt == nil && a >= 1 && a <= 100000 {
+				opts := []rfc8888.Option{rfc8888.SendInterval(time.Duration(a) * time.Millisecond)}
+				if withSkew {
+					skew := time.Duration(b) * time.Millisecond
+					opts = append(opts, rfc8888.SenderNow(func() time.Time { return time.Now().Add(skew) }))
+				}
+				f, err := rfc8888.NewSenderInterceptor(opts...)
 				if err != nil {
 					o.P("err:factory")
 					return
